@@ -24,13 +24,20 @@ pub fn new_box(area: &str) -> Option<Box<dyn VerifBox>> {
             crate::protocol::libp2p::kademlia::verif_c17::StoreBox::new(),
         )),
         "c19" => Some(Box::new(c19::DecoderBox::new())),
+        "c14" => Some(Box::new(
+            crate::protocol::libp2p::kademlia::verif_c14_new(),
+        )),
         _ => None,
     }
 }
 
 /// Names of all adapters.
 pub fn areas() -> Vec<&'static str> {
-    vec!["c17", "c19"]
+    vec![
+        "c14",
+        "c17",
+        "c19",
+    ]
 }
 
 /// Decode a hex string.
@@ -107,4 +114,28 @@ pub fn alloc_begin() -> usize {
 /// Peak number of bytes allocated above `base` since [`alloc_begin`].
 pub fn alloc_peak_since(base: usize) -> usize {
     ALLOC_PEAK.load(Ordering::Relaxed).saturating_sub(base)
+}
+
+thread_local! {
+    /// Kademlia keys dictated by the harness (peer id -> 32 key bytes), see [`key_override`].
+    static KEY_OVERRIDES: std::cell::RefCell<HashMap<crate::PeerId, [u8; 32]>> =
+        std::cell::RefCell::new(HashMap::new());
+}
+
+/// Dictate the Kademlia key of `peer` on this thread (SHA-256 preimages for the low k-buckets are
+/// infeasible to find). Consulted by `impl From<PeerId> for Key<PeerId>`.
+pub fn set_key_override(peer: crate::PeerId, key: [u8; 32]) {
+    KEY_OVERRIDES.with(|m| {
+        m.borrow_mut().insert(peer, key);
+    });
+}
+
+/// Forget all dictated keys of this thread.
+pub fn clear_key_overrides() {
+    KEY_OVERRIDES.with(|m| m.borrow_mut().clear());
+}
+
+/// The dictated key of `peer`, if any.
+pub fn key_override(peer: &crate::PeerId) -> Option<[u8; 32]> {
+    KEY_OVERRIDES.with(|m| m.borrow().get(peer).copied())
 }
